@@ -61,6 +61,30 @@ Proof.
            (mkLinePoint v3_zero (cofZ 0)) pts).
 Qed.
 
+(* the other loop shape the translator knows (`prev := xs[0]; for i, x := range xs[1:] { ys[i] = E prev x; prev = x }`):
+   indices i+0, i+1 over i = 0 .. length-2 *)
+Lemma adjacent_by_index0 {A B} (g : A -> A -> B) (z : A) (l : list A) :
+  map (fun i : nat => g (nth (i + 0) l z) (nth (i + 1) l z)) (seq 0 (length l - 1)) =
+  map (fun uw => g (fst uw) (snd uw)) (adjacent l).
+Proof.
+  rewrite <- (adjacent_by_index g z l), <- seq_shift, map_map.
+  apply map_ext. intros i. rewrite Nat.add_0_r, Nat.add_1_r.
+  replace (S i - 1)%nat with i by lia. reflexivity.
+Qed.
+
+Lemma vline_gen_cones0 (pts : list (LinePoint R)) :
+  map (fun i : nat =>
+         RoundedCone (LinePoint_Point (nth (i + 0) pts (mkLinePoint v3_zero (cofZ 0))))
+                     (LinePoint_Point (nth (i + 1) pts (mkLinePoint v3_zero (cofZ 0))))
+                     (LinePoint_Radius (nth (i + 0) pts (mkLinePoint v3_zero (cofZ 0))))
+                     (LinePoint_Radius (nth (i + 1) pts (mkLinePoint v3_zero (cofZ 0)))))
+      (seq 0 (length pts - 1)) = vline_cones pts.
+Proof.
+  exact (adjacent_by_index0
+           (fun u w => RoundedCone (LinePoint_Point u) (LinePoint_Point w) (LinePoint_Radius u) (LinePoint_Radius w))
+           (mkLinePoint v3_zero (cofZ 0)) pts).
+Qed.
+
 Lemma vline_cones_nonempty pts : (2 <= length pts)%nat -> Union_panics (vline_cones pts) = false.
 Proof.
   intros H. apply Union_panics_iff. unfold vline_cones. intros E. apply map_eq_nil in E.
@@ -73,7 +97,7 @@ Proof.
   unfold VarryingThicknessLine_panics. cbv zeta.
   destruct (Z.ltb_spec (Z.of_nat (length pts)) 2) as [H | H].
   - split; [discriminate | lia].
-  - rewrite vline_gen_cones. split; [intros _; lia | apply vline_cones_nonempty].
+  - first [rewrite vline_gen_cones | rewrite vline_gen_cones0]. split; [intros _; lia | apply vline_cones_nonempty].
 Qed.
 
 Theorem vline_is_union (pts : list (LinePoint R)) p : (2 <= length pts)%nat ->
@@ -81,7 +105,7 @@ Theorem vline_is_union (pts : list (LinePoint R)) p : (2 <= length pts)%nat ->
 Proof.
   intros H. unfold VarryingThicknessLine. cbv zeta.
   destruct (Z.ltb_spec (Z.of_nat (length pts)) 2) as [H' | _]; [lia|].
-  rewrite vline_gen_cones. reflexivity.
+  first [rewrite vline_gen_cones | rewrite vline_gen_cones0]. reflexivity.
 Qed.
 
 Theorem vline_sign (pts : list (LinePoint R)) p : (2 <= length pts)%nat ->
